@@ -85,8 +85,12 @@ PROPS = {
                      "MantraDex.C01Sys.pm_inv_step", "MantraDex.C01Sys.pm_custody_reachable",
                      "MantraDex.C02Sys.lp_inv_step", "MantraDex.C02Sys.lp_inv_reachable", "MantraDex.C02Sys.pm_lp_balance_step_partial",
                      "MantraDex.C01All.all_inv_step", "MantraDex.C01All.all_inv_reachable", "MantraDex.C01All.pm_custody_all_reachable", "MantraDex.C01All.all_inv_init",
-                     "MantraDex.NonVacuity.w0_allInv", "MantraDex.NonVacuity.hist_effective", "MantraDex.NonVacuity.instance_custody"],
-        "extra_modules": ["MantraDex.Properties.C01Sys", "MantraDex.Properties.C02Sys", "MantraDex.Properties.C01All", "MantraDex.Properties.NonVacuity"],
+                     "MantraDex.NonVacuity.w0_allInv", "MantraDex.NonVacuity.hist_effective", "MantraDex.NonVacuity.instance_custody",
+                     "MantraDex.C01Exact.excess_tx_exact", "MantraDex.C01Exact.excess_history_exact",
+                     "MantraDex.C01Exact.Cx.pmCollector_needed", "MantraDex.C01Exact.Cx.fmCollector_needed", "MantraDex.C01Exact.Cx.farmOwners_needed",
+                     "MantraDex.C01Exact.Cx.swapReceiver_needed", "MantraDex.C01Exact.Cx.routeReceiver_needed", "MantraDex.C01Exact.Cx.oddUnit_instance"],
+        "extra_modules": ["MantraDex.Properties.C01Sys", "MantraDex.Properties.C02Sys", "MantraDex.Properties.C01All", "MantraDex.Properties.NonVacuity",
+                          "MantraDex.Properties.C01Exact"],
         "streams": {"pm_hist": (160, 4000), "faults": (45, 1500)},
         "what": "handler-level conservation law of the pool manager for every non-LP token: reserves' + outflow(messages) = reserves + inflow(funds) "
                 "for swap, routed swap (any length), withdraw, multi-asset deposit, pool creation (keeps nothing), config/ownership; the single-asset "
@@ -98,7 +102,7 @@ PROPS = {
                 "reachable state (pm_inv_step, pm_custody_reachable, pm_inv_init; the _partial versions are the intermediate result). LP CLAUSE (C02Sys): the pool manager "
                 "holds the locked minimum of every funded pool in every reachable state (lp_inv_step / lp_inv_reachable), and a contract call changes its balance of a pool's LP token "
                 "only by minting that minimum at the first deposit (pm_lp_balance_step_partial: unless the pool manager is itself named as LP receiver, fee collector or farm owner - "
-                "three proved-necessary exclusions with evaluated counterexamples). FULL STRENGTH, EVERY TOKEN (C01All): in every state reachable by account-signed transactions, for EVERY "
+                "three proved-necessary exclusions with evaluated counterexamples). EXACT EXCESS (C01Exact): across an accepted transaction of ANY kind by an account the excess balance - reserves of every non-factory denom moves by exactly the coins of a plain transfer to the pool manager plus one unit of the deposited denom for a single-asset deposit of an odd amount, and by nothing else (excess_tx_exact; along histories: excess_history_exact) - provided no payment is pointed at the pool manager itself (swap / route receiver, the two fee collectors, farm owner: each shown necessary by a kernel-evaluated counterexample). FULL STRENGTH, EVERY TOKEN (C01All): in every state reachable by account-signed transactions, for EVERY "
                 "denom - LP tokens of the pool manager, pools listing another (or their own) pool's LP token as an asset, fee denoms that are LP tokens - recorded reserves + the locked minimum "
                 "liquidity of the funded pool whose LP token it is <= the pool manager's balance (all_inv_step, pm_custody_all_reachable, all_inv_init); no restriction on the pools' assets",
         "assumptions": ["the lift through the runtime to whole transactions is proved (C01Sys) for every transaction kind, for non-factory denoms (LP tokens "
